@@ -264,7 +264,9 @@ def snapshot(opt):
             # a fitness-predictor island also owns a population of predictors and their evaluation counters
             pi, pf = isl._predictor_island, isl._predictor_fitness_function
             d["predictors"] = dict(age=pi.generational_age, pop=[ind(p) for p in pi.population],
-                                   evals=pi.get_fitness_evaluation_count(), point_evals=int(pf.point_eval_count))
+                                   evals=pi.get_fitness_evaluation_count(), point_evals=int(pf.point_eval_count),
+                                   # the training subset the main population is currently judged on
+                                   subset=repr(np.asarray(isl._fitness_function.training_data).tolist()))
         return d
     if hasattr(opt, "islands"):
         d = dict(age=opt.generational_age, islands=[island(i) for i in opt.islands],
@@ -288,7 +290,8 @@ def lossless_tests(nruns, seed):
     out = dict(runs=0, viol=[], samples=[], deep_state_touched_by_dump=0)
     for r in range(nruns):
         s = rng.randrange(10 ** 6)
-        kind = ["island-values", "island-agraph", "archipelago-values", "predictor-values"][r % 4]
+        kind = ["island-values", "island-agraph", "archipelago-values", "predictor-values", "predictor-values-slow", "predictor-values-slow",
+                "predictor-values-slow"][r % 7]
         fam = "agraph" if "agraph" in kind else "values"
         isl = make_island(s, fam)
         if kind.startswith("archipelago"):
@@ -298,14 +301,35 @@ def lossless_tests(nruns, seed):
             from props.c13_fit import DistanceToAverage
             from bingo.evaluation.evaluation import Evaluation
             ea.evaluation = Evaluation(DistanceToAverage(np.linspace(0.1, 1, 60)))
-            opt = FitnessPredictorIsland(ea, isl._generator, 10, hall_of_fame=HallOfFame(3), predictor_population_size=4,
-                                         trainer_population_size=4, predictor_size_ratio=0.2,
-                                         predictor_computation_ratio=0.3, trainer_update_frequency=2,
-                                         predictor_update_frequency=3)
+            if kind.endswith("slow"):
+                # the predictor in use is refreshed rarely while the predictor island keeps evolving (a busy main population pays
+                # for it): a dump taken between two refreshes must not re-synchronise anything on load
+                from bingo.evolutionary_algorithms.mu_plus_lambda import MuPlusLambda
+                from bingo.selection.tournament import Tournament
+                from bingo.chromosomes.multiple_values import SinglePointCrossover, SinglePointMutation, MultipleValueChromosomeGenerator
+                from props.c13_fit import rand_value
+                ea = MuPlusLambda(Evaluation(DistanceToAverage(np.linspace(0.1, 1, 200) ** 3)), Tournament(2), SinglePointCrossover(),
+                                  SinglePointMutation(rand_value), 0.0, 1.0, 40)
+                opt = FitnessPredictorIsland(ea, MultipleValueChromosomeGenerator(rand_value, 10), 40, hall_of_fame=HallOfFame(3),
+                                             predictor_population_size=16, trainer_population_size=4, predictor_size_ratio=0.1,
+                                             predictor_computation_ratio=0.7, trainer_update_frequency=3,
+                                             predictor_update_frequency=10)
+            else:
+                opt = FitnessPredictorIsland(ea, isl._generator, 10, hall_of_fame=HallOfFame(3), predictor_population_size=4,
+                                             trainer_population_size=4, predictor_size_ratio=0.2,
+                                             predictor_computation_ratio=0.3, trainer_update_frequency=2,
+                                             predictor_update_frequency=3)
         else:
             opt = isl
         g1, g2 = rng.randint(1, 4), rng.randint(1, 4)
-        opt.evolve(g1)
+        if kind.endswith("slow"):
+            g1, g2 = rng.randint(3, 9), 6
+        # half of the runs are driven through evolve_until_convergence (its stagnation / best-fitness bookkeeping is state too)
+        conv = (r // 7) % 2 == 1
+        if conv:
+            opt.evolve_until_convergence(max_generations=g1 + 2, fitness_threshold=-1e300, convergence_check_frequency=1)
+        else:
+            opt.evolve(g1)
         path = os.path.join(work, "t.pkl")
         deep_pre = dill.dumps(opt)
         opt.dump_to_file(path)
@@ -323,20 +347,25 @@ def lossless_tests(nruns, seed):
         if snapshot(opt) != before:
             out["viol"].append("%s seed %d: dumping changed the optimizer" % (kind, s))
         st_np, st_py = np.random.get_state(), random.getstate()
-        traj_a = []
-        for _ in range(g2):
-            opt.evolve(1)
-            traj_a.append(snapshot(opt))
+
+        def cont(o):
+            if not conv:
+                tr = []
+                for _ in range(g2):
+                    o.evolve(1)
+                    tr.append(snapshot(o))
+                return tr
+            res_ = o.evolve_until_convergence(max_generations=g2 + 6, fitness_threshold=-1e300, convergence_check_frequency=1,
+                                              stagnation_generations=2)
+            return [(res_.status, res_.ngen, repr(res_.fitness)), snapshot(o)]
+        traj_a = cont(opt)
         np.random.set_state(st_np)
         random.setstate(st_py)
-        traj_b = []
-        for _ in range(g2):
-            loaded.evolve(1)
-            traj_b.append(snapshot(loaded))
+        traj_b = cont(loaded)
         if traj_a != traj_b:
             out["viol"].append("%s seed %d: evolution after restore diverges from the original under the same RNG state" % (kind, s))
         out["runs"] += 1
-        out["samples"].append(dict(kind=kind, seed=s, gens_before=g1, gens_after=g2))
+        out["samples"].append(dict(kind=kind, seed=s, gens_before=g1, gens_after=g2, through_evolve_until_convergence=conv))
     shutil.rmtree(work, ignore_errors=True)
     return out
 
@@ -347,7 +376,7 @@ def check(rep, proof):
     forced = [(1, 2), (1, 1), (2, 2), (1, 3)]
     scenarios = [gen_scenario(rng, f) for f in forced] + [gen_scenario(rng) for _ in range(nsc - len(forced))]
     rc, res, out, wall = vlib.run_impl("c13", dict(scenarios=scenarios, max_points=18 if rep.tier == "quick" else 60,
-                                                   lossless_runs=8 if rep.tier == "quick" else 80, seed=rep.seed), timeout=3400)
+                                                   lossless_runs=21 if rep.tier == "quick" else 140, seed=rep.seed), timeout=3400)
     if res is None:
         rep.violation("implementation harness crashed", dict(relation="corr_C13_checkpoint", log=out[-3000:]), has_input=False)
         return
